@@ -1,0 +1,8 @@
+//go:build !verif
+
+// Package verifhook marks the durable steps of cache population for the verification harness in
+// /verif. Without the `verif` build tag Point is an empty function that the compiler inlines away.
+package verifhook
+
+// Point marks a durable step (a no-op in normal builds).
+func Point(name string) {}
